@@ -44,7 +44,9 @@ def base_case(draw, rows, dtype="complex", short_nfft=False):
         lo = max(N, est.min_nfft(row, N, p))
         nfft = draw(gen.nfft_at_least(lo, hi_mult=2))
     # the relations hold with and without frequency scaling (both estimates carry the same factor 2 pi NFFT/sampling)
-    return {"row": row, "x": x, "params": p, "nfft": nfft, "sbf": draw(st.sampled_from([False, False, True]))}
+    return {"row": row, "x": x, "params": p, "nfft": nfft, "sbf": draw(st.sampled_from([False, False, True])),
+            # ... and at every sampling rate (the number of one-sided bins is a function of NFFT alone)
+            "sampling": draw(st.sampled_from([1.0, 1.0, 1000.0, 44100.0, 48000.0, 3.0, 0.1]))}
 
 
 @st.composite
@@ -68,7 +70,7 @@ def c04_shift(ctx, case):
     n = np.arange(len(x))
     sig = {"row": row, "parity": nfft % 2, "clause": "shift"}
     ctx.sig_on_exception = sig
-    oa = est.build(row, x, p, NFFT=nfft, scale_by_freq=case.get("sbf", False))
+    oa = est.build(row, x, p, NFFT=nfft, sampling=case.get("sampling", 1.0), scale_by_freq=case.get("sbf", False))
     a = est.psd_of(oa)
     why = est.degenerate(row, oa)
     if why:
@@ -76,7 +78,7 @@ def c04_shift(ctx, case):
         return
     # phase reduced modulo NFFT so that the modulation is exact for |m n| large
     y = x * np.exp(2j * np.pi * ((m * n) % nfft) / float(nfft))
-    b = est.psd_of(est.build(row, y, p, NFFT=nfft, scale_by_freq=case.get("sbf", False)))
+    b = est.psd_of(est.build(row, y, p, NFFT=nfft, sampling=case.get("sampling", 1.0), scale_by_freq=case.get("sbf", False)))
     ctx.cls(row, "odd" if nfft % 2 else "even", "m<0" if m < 0 else "m>0", "NFFT<N" if nfft < len(x) else "NFFT>=N")
     ctx.nontrivial(m % nfft != 0 and two_distinct(x))
     ctx.check(len(a) == nfft and len(b) == nfft, "%s: two-sided estimate has %d / %d values for NFFT=%d" % (row, len(a), len(b), nfft), sig=sig)
@@ -90,20 +92,20 @@ def c04_conj(ctx, case):
     x = gen.realise(case["x"]).astype(complex)
     sig = {"row": row, "parity": nfft % 2, "clause": "conj"}
     ctx.sig_on_exception = sig
-    oa = est.build(row, x, p, NFFT=nfft, scale_by_freq=case.get("sbf", False))
+    oa = est.build(row, x, p, NFFT=nfft, sampling=case.get("sampling", 1.0), scale_by_freq=case.get("sbf", False))
     a = np.real(est.psd_of(oa))
     why = est.degenerate(row, oa)
     if why:
         ctx.exclude(why)
         return
-    b = est.psd_of(est.build(row, np.conj(x), p, NFFT=nfft, scale_by_freq=case.get("sbf", False)))
+    b = est.psd_of(est.build(row, np.conj(x), p, NFFT=nfft, sampling=case.get("sampling", 1.0), scale_by_freq=case.get("sbf", False)))
     ctx.cls(row, "odd" if nfft % 2 else "even")
     ctx.nontrivial(two_distinct(x) and float(np.max(np.abs(x.imag))) > 0)
     ctx.check(len(a) == nfft and len(b) == nfft, "%s: two-sided estimate has %d / %d values for NFFT=%d" % (row, len(a), len(b), nfft), sig=sig)
     est.compare_psd(ctx, row, b, a[(-np.arange(nfft)) % nfft], "%s: conjugation does not mirror the spectrum (NFFT=%d)" % (row, nfft), sig=sig)
     if (nfft + len(x)) % 4 == 0:
         # complex data are complex data whatever their precision: single-precision I/Q samples give a two-sided estimate too
-        c64 = est.psd_of(est.build(row, x.astype(np.complex64), p, NFFT=nfft, scale_by_freq=case.get("sbf", False)))
+        c64 = est.psd_of(est.build(row, x.astype(np.complex64), p, NFFT=nfft, sampling=case.get("sampling", 1.0), scale_by_freq=case.get("sbf", False)))
         ctx.check(len(c64) == nfft, "%s: complex64 samples give %d values for NFFT=%d (complex128: %d): not a two-sided estimate"
                   % (row, len(c64), nfft, len(a)), sig=dict(sig, clause="complex64"))
 
@@ -115,13 +117,15 @@ def c04_real(ctx, case):
     x = gen.realise(case["x"]).astype(float)
     sig = {"row": row, "parity": nfft % 2, "clause": "real"}
     ctx.sig_on_exception = sig
-    oa = est.build(row, x, p, NFFT=nfft, scale_by_freq=case.get("sbf", False))
+    fs = case.get("sampling", 1.0)
+    oa = est.build(row, x, p, NFFT=nfft, sampling=fs, scale_by_freq=case.get("sbf", False))
     one = est.psd_of(oa)
     why = est.degenerate(row, oa)
     if why:
         ctx.exclude(why)
         return
-    two = est.psd_of(est.build(row, x.astype(complex), p, NFFT=nfft, scale_by_freq=case.get("sbf", False)))
+    two = est.psd_of(est.build(row, x.astype(complex), p, NFFT=nfft, sampling=fs, scale_by_freq=case.get("sbf", False)))
+    ctx.cls("sampling=%g" % fs)
     L = nfft // 2 + 1 if nfft % 2 == 0 else (nfft + 1) // 2
     ctx.cls(row, "odd" if nfft % 2 else "even")
     ctx.nontrivial(two_distinct(x))
@@ -145,8 +149,8 @@ def c04_reverse(ctx, case):
     x = x.astype(complex) if np.iscomplexobj(x) else x.astype(float)
     sig = {"row": row, "parity": nfft % 2, "clause": "reverse"}
     ctx.sig_on_exception = sig
-    a = est.psd_of(est.build(row, x, p, NFFT=nfft, scale_by_freq=case.get("sbf", False)))
-    b = est.psd_of(est.build(row, np.conj(x[::-1]).copy(), p, NFFT=nfft, scale_by_freq=case.get("sbf", False)))
+    a = est.psd_of(est.build(row, x, p, NFFT=nfft, sampling=case.get("sampling", 1.0), scale_by_freq=case.get("sbf", False)))
+    b = est.psd_of(est.build(row, np.conj(x[::-1]).copy(), p, NFFT=nfft, sampling=case.get("sampling", 1.0), scale_by_freq=case.get("sbf", False)))
     ctx.cls(row, "complex" if np.iscomplexobj(x) else "real", "odd" if nfft % 2 else "even")
     ctx.nontrivial(two_distinct(x) and not np.allclose(x, np.conj(x[::-1])))
     est.compare_psd(ctx, row, b, np.real(a), "%s: estimate changes under conjugated time reversal" % row, sig=sig)
